@@ -71,6 +71,24 @@ fn check_call(word: &str, cands: &[&str], n: usize, cutoff: f32) -> Result<u64, 
             word, cands, n, cutoff, got, want, ratios
         ));
     }
+    // the byte-string instantiation of the same call (valid UTF-8: same characters)
+    if n == 1 || cands.len() > 1 {
+        let wb = word.as_bytes();
+        let cb: Vec<&[u8]> = cands.iter().map(|c| c.as_bytes()).collect();
+        let gotb = subject(|| get_close_matches(wb, &cb, n, cutoff)).map_err(|p| format!("[u8]: panic: {}", p))?;
+        let wantb: Vec<&[u8]> = want.iter().map(|c| c.as_bytes()).collect();
+        if gotb != wantb {
+            return Err(format!(
+                "get_close_matches on the same texts as [u8] ({:?}, {:?}, {}, {:?}) = {:?}; exhaustive ranking gives {:?}",
+                word,
+                cands,
+                n,
+                cutoff,
+                gotb.iter().map(|b| String::from_utf8_lossy(b).to_string()).collect::<Vec<_>>(),
+                want
+            ));
+        }
+    }
     let mut fp = Fp::new();
     for s in &got {
         for b in s.bytes() {
